@@ -50,3 +50,8 @@ Theorem last_index_in_bounds len : (0 < len)%nat -> 0 <= last_index len < Z.of_n
 Proof. unfold last_index. lia. Qed.
 Theorem last_index_empty_refuted : ~ (0 <= last_index 0).
 Proof. unfold last_index. cbn. lia. Qed.
+
+Theorem shorthand_index_in_bounds len index :
+  1 <= index < len -> shorthand_reads_next len index = true ->
+  index + 1 < len /\ index + 2 <= len.
+Proof. unfold shorthand_reads_next. intros H E. apply Bool.negb_true_iff, Z.eqb_neq in E. lia. Qed.
